@@ -61,6 +61,12 @@ template<class C, class R> static void op_case(const Pattern &p, hx::Rng &rng, c
                 hx::prove("contraction: v != 0 => v'(2B - BAB)v > 0  (spectral radius of I - BA below one)", hx::implies(hx::any_of(nz), hx::lt(scalar(0),q2)));
             } }
 #endif
+        // concrete (replay / validation) runs: B column by column from unit vectors, symmetry by comparison
+        if (hx::concrete() && spd_checks && symmetric_smoother) { std::vector<std::vector<scalar>> Bc(n,std::vector<scalar>(n)); for (int j=0;j<n;++j) { std::vector<scalar> e(n,scalar(0)); e[j]=scalar(1); std::vector<scalar> col=apply_vec(amg,e); for (int i=0;i<n;++i) Bc[i][j]=col[i]; }
+            std::vector<hx::F> symm; for (int i=0;i<n;++i) for (int j=i+1;j<n;++j) symm.push_back(hx::eq(Bc[i][j],Bc[j][i])); hx::prove_all("B is symmetric", symm);
+            std::vector<scalar> v; for (int i=0;i<n;++i) v.push_back(var("v"+std::to_string(i),i==0?1.0:0.0)); auto mulc=[&](const std::vector<scalar> &x) { std::vector<scalar> y(n,scalar(0)); for (int i=0;i<n;++i) { scalar t=0; for (int j=0;j<n;++j) t+=Bc[i][j]*x[j]; y[i]=t; } return y; };
+            std::vector<scalar> Bv=mulc(v); scalar vBv=0; for (int i=0;i<n;++i) vBv+=v[i]*Bv[i]; std::vector<scalar> ABv=hx::dense_mv(A,Bv), BABv=mulc(ABv); scalar q2=0; for (int i=0;i<n;++i) q2+=v[i]*(2*Bv[i]-BABv[i]); std::vector<hx::F> nz; for (int i=0;i<n;++i) nz.push_back(hx::ne(v[i],scalar(0)));
+            hx::prove("B is positive definite: v != 0 => v'Bv > 0", hx::implies(hx::any_of(nz), hx::lt(scalar(0),vBv))); hx::prove("contraction: v != 0 => v'(2B - BAB)v > 0  (spectral radius of I - BA below one)", hx::implies(hx::any_of(nz), hx::lt(scalar(0),q2))); }
     });
 }
 
@@ -88,6 +94,8 @@ template<class C, class R> static void block_op_case(const Pattern &p, hx::Rng &
                 std::vector<scalar> Bv=mul(B,v); scalar vBv=0; for (int i=0;i<n;++i) vBv+=v[i]*Bv[i]; std::vector<hx::F> nz; for (int i=0;i<n;++i) nz.push_back(hx::ne(v[i],scalar(0)));
                 hx::prove("block values: B is positive definite: v != 0 => v'Bv > 0", hx::implies(hx::any_of(nz), hx::lt(scalar(0),vBv))); } }
 #endif
+        if (hx::concrete() && symmetric_smoother) { std::vector<std::vector<scalar>> Bc(n,std::vector<scalar>(n)); for (int j=0;j<n;++j) { std::vector<scalar> e(n,scalar(0)); e[j]=scalar(1); std::vector<scalar> col=app(amg,e); for (int i=0;i<n;++i) Bc[i][j]=col[i]; }
+            std::vector<hx::F> symm; for (int i=0;i<n;++i) for (int j=i+1;j<n;++j) symm.push_back(hx::eq(Bc[i][j],Bc[j][i])); hx::prove_all("block values: B is symmetric", symm); }
     });
 }
 
